@@ -359,3 +359,52 @@ Proof.
   destruct (negotiate_dep_closed brty0 (mkiopt (io_brs ia) (io_lri ia) (io_did ia) (io_nad ia) ga) (mktopt (to_lrt tb) (to_rwt tb) gb) id3 id3t Hb0 H3 H3t) as (fr & E).
   rewrite E in Ed. injection Ed as <-. cbn in *. auto 10.
 Qed.
+
+(* ------------------------------------------------------------------ several activations of one LLC object *)
+Lemma takeover_assign sec gb c : llc_takeover sec gb = Ok c -> c_ok c = true ->
+  exists p, pax_decode (drop 3 gb) = Ok p /\ c = cfg_assign sec (pax_miu p) (pax_lto p) (pax_wks p) (pax_lsc p) (pax_dpc p) (pax_ver p).
+Proof.
+  unfold llc_takeover. destruct (starts_ffm gb && (6 <=? len gb)); [|intro H; injection H as <-; discriminate].
+  destruct (pax_decode (drop 3 gb)) as [p|e|x|]; try discriminate.
+  - intros H _. injection H as <-. exists p. split; reflexivity.
+  - destruct e; try discriminate. intro H. injection H as <-. discriminate.
+Qed.
+
+(* reachable states of an LLC created with options o *)
+Definition Linv (o : lopt) (s : lstate) : Prop :=
+  ls_opt s = o /\ announce_lsc (ls_local_lsc s) (ls_send_lsc s) = lo_lsc o.
+
+Lemma Linv_new o : Linv o (llc_new o).
+Proof. split; reflexivity. Qed.
+
+Lemma lopt_eta o : mklopt (lo_miu o) (lo_lto o) (lo_lsc o) (lo_sec o) (lo_saps o) = o.
+Proof. destruct o; reflexivity. Qed.
+
+(* what is announced never depends on the history, and what is held afterwards depends on THIS peer only *)
+Theorem activate_depends_on_peer_only o s g gb s' : Linv o s -> llc_activate s g = Ok (gb, s') ->
+  general_bytes o = Ok gb /\ Linv o s' /\
+  (forall c, llc_takeover (lo_sec o) g = Ok c -> c_ok c = true -> ls_held s' = c /\ ls_send_lsc s' = c_send_lsc c).
+Proof.
+  intros [Ho Hl] H. unfold llc_activate in H. rewrite Ho, Hl, lopt_eta in H.
+  destruct (general_bytes o) as [gb0| | |]; try discriminate. cbn [bind] in H.
+  destruct (llc_takeover (lo_sec o) g) as [c| | |]; try discriminate. cbn [bind] in H.
+  injection H as <- <-. split; [reflexivity|]. split.
+  - destruct (c_ok c); split; reflexivity.
+  - intros c' E Hok. injection E as <-. rewrite Hok. split; reflexivity.
+Qed.
+
+Theorem history_nth_peer_only o : forall peers s gbs s', Linv o s -> llc_history s peers = Ok (gbs, s') ->
+  Forall (fun gb => general_bytes o = Ok gb) gbs /\ Linv o s' /\
+  (forall g c, last peers [] = g -> peers <> [] -> llc_takeover (lo_sec o) g = Ok c -> c_ok c = true -> ls_held s' = c).
+Proof.
+  induction peers as [|g rest IH]; intros s gbs s' HI H; cbn [llc_history] in H.
+  - injection H as <- <-. split; [constructor|]. split; [exact HI|]. intros; congruence.
+  - destruct (llc_activate s g) as [[gb s1]| | |] eqn:Ea; try discriminate. cbn [bind snd fst] in H.
+    destruct (llc_history s1 rest) as [[gl s2]| | |] eqn:Eh; try discriminate. cbn [bind snd fst] in H. injection H as <- <-.
+    destruct (activate_depends_on_peer_only o s g gb s1 HI Ea) as (A & B & C).
+    destruct (IH s1 gl s2 B Eh) as (A' & B' & C').
+    split; [constructor; assumption|]. split; [exact B'|].
+    intros g0 c Hlast _ Ht Hok. destruct rest as [|g1 rest'].
+    + cbn in Hlast. subst g0. cbn in Eh. injection Eh as <- <-. apply (C c Ht Hok).
+    + apply (C' g0 c); [exact Hlast | discriminate | exact Ht | exact Hok].
+Qed.
